@@ -35,6 +35,9 @@ func judge(sc tmh.Script, obs *tmh.Obs, x *vsched.Exec) (string, *vsched.Violati
 		if len(f.Starts) != 1 {
 			return "v", &vsched.Violation{Sig: "never-fired", Detail: fmt.Sprintf("future #%d (delay %v, scheduled at +%v) was not cancelled but was started %d times by the time the package went quiescent", i, f.Delay, f.CallAt, len(f.Starts)) + ctxt}
 		}
+		if f.Starts[0] < f.CallAt+f.Delay {
+			return "v", &vsched.Violation{Sig: "early", Detail: fmt.Sprintf("future #%d (delay %v, scheduled at +%v) was started at +%v, before it was due", i, f.Delay, f.CallAt, f.Starts[0]) + ctxt}
+		}
 		late := f.Starts[0] - (f.CallRet + f.Delay)
 		if f.Delay < 0 {
 			late = f.Starts[0] - f.CallRet
